@@ -15,7 +15,10 @@ MANIFEST = dict(
          'changes nothing. Tie: Server.incref/decref/create arithmetic and the try/except skeletons of '
          'serve_client/handle_request are regenerated from managers.py on every run and proved to compute the '
          'model; exposed sets come from the real Server.create. Correspondence: real Server in-process with scripted '
-         'connections, real proxies against the real server threads, (thorough) real manager and client processes. '
+         'connections, real proxies against the real server threads (explicit proxy classes and an AutoProxy typeid, '
+         'copies by pickling, proxies rebuilt as in a spawn/forkserver child), real spawn scenarios and (thorough) real '
+         'manager and client processes; the refcount equation is also monitored on fork/spawn/forkserver histories '
+         'of the typeids SyncManager registers itself (Queue, Event, Lock ...), with results compared to a local twin. '
          'One part of the statement is REFUTED on the pinned tree (results of proxy-returning methods called '
          'through a proxy passed to another process are leaked) and reported as an alarm; the Iterator-proxy '
          'defect found earlier is repaired in /repo and now proved positively.',
@@ -873,7 +876,7 @@ def gen_life_case(rng):
 
 
 def life_monitor(case, out):
-    """-> (signature, what) of the first / gravest deviation, or None"""
+    """-> (signature, what, object index or None) of the first / gravest deviation, or None"""
     parent = {}
     kids = {}
     n = 0
@@ -889,35 +892,62 @@ def life_monitor(case, out):
                 held |= {i for i, v in parent.items() if v}
             kids[st[2]] = held
             if o['obs'] != ['ok', len(st[3])]:
-                return ('C20:client-operation-hangs-or-crashes', 'child did not start: %r' % (o['obs'],))
+                return ('C20:client-operation-hangs-or-crashes', 'child did not start: %r' % (o['obs'],), None)
         elif k == 'drop':
             parent[st[1]] = 0
         elif k == 'exit':
             kids.pop(st[1], None)
             if o['obs'] != ['exit', 0]:
-                return ('C20:client-operation-hangs-or-crashes', 'child exit code %r' % (o['obs'],))
+                return ('C20:client-operation-hangs-or-crashes', 'child exit code %r' % (o['obs'],), None)
         elif k in ('use', 'puse'):
             if o['obs'][1] != o['obs'][2]:
+                objs = st[2] if k == 'use' else [st[1]]
+                i = next(x for x, g, w in zip(objs, o['obs'][1], o['obs'][2]) if g != w)
                 return ('C20:proxy-call-differs-from-local',
-                        'step %d %r: through the proxy %r, on the local object %r' % (step, st, o['obs'][1], o['obs'][2]))
+                        'step %d %r, %s referent: through the proxy %r, on the local object %r'
+                        % (step, st, case[i][1], o['obs'][1], o['obs'][2]), i)
         want = {i: parent[i] + sum(1 for h in kids.values() if i in h) for i in parent}
         got = dict((i, rc) for i, rc in o['rc'])
         for i in sorted(want):
             typ = case[i][1]
             if want[i] >= 1 and i not in got:
                 return ('C20:referent-disposed-while-proxy-lives',
-                        'after step %d %r the %s referent is gone although %d proxies exist' % (step, st, typ, want[i]))
+                        'after step %d %r the %s referent is gone although %d proxies exist' % (step, st, typ, want[i]), i)
             if want[i] == 0 and i in got and (worst is None or worst[0] != 'C20:referent-survives-all-proxies'):
                 worst = ('C20:referent-survives-all-proxies',
                          'after step %d %r no proxy to the %s referent exists in any process but the server '
-                         'still holds it (refcount %d)' % (step, st, typ, got[i]))
+                         'still holds it (refcount %d)' % (step, st, typ, got[i]), i)
             elif i in got and got[i] != want[i] and worst is None:
                 worst = ('C20:refcount-differs-from-live-proxies',
                          'after step %d %r the %s referent has refcount %d, live proxies %d'
-                         % (step, st, typ, got[i], want[i]))
+                         % (step, st, typ, got[i], want[i]), i)
         if o['numobj'] != len(got) and worst is None:
-            worst = ('C20:number-of-objects-wrong', 'number_of_objects() = %s, debug_info shows %d' % (o['numobj'], len(got)))
+            worst = ('C20:number-of-objects-wrong',
+                     'number_of_objects() = %s, debug_info shows %d' % (o['numobj'], len(got)), None)
     return worst
+
+
+def life_restrict(case, i):
+    """the history of object i alone (the other objects and the statements on them removed)"""
+    out = []
+    n = 0
+    for st in case:
+        k = st[0]
+        if k == 'create':
+            if n == i:
+                out.append(st)
+            n += 1
+        elif k == 'start':
+            out.append(['start', st[1], st[2], [0] if i in st[3] else []])
+        elif k == 'use':
+            if i in st[2]:
+                out.append(['use', st[1], [0]])
+        elif k in ('puse', 'drop'):
+            if st[1] == i:
+                out.append([k, 0])
+        else:
+            out.append(st)
+    return out
 
 
 def correspond_life(res, only=None):
@@ -941,8 +971,16 @@ def correspond_life(res, only=None):
             hist[key] = hist.get(key, 0) + 1
         steps += len(o)
         bad = life_monitor(c, o)
+        if bad and bad[2] is not None and sum(1 for st in c if st[0] == 'create') > 1:
+            # smaller witness: the history of the object concerned alone, run again
+            c1 = life_restrict(c, bad[2])
+            o1 = core.run_driver('mgr_driver.py', dict(mode='life', cases=[c1]), timeout=300)[0]
+            bad1 = life_monitor(c1, o1)
+            if bad1 and bad1[0] == bad[0]:
+                c, o, bad = c1, o1, bad1
         if bad:
-            res.alarms.append(dict(signature=bad[0], what='(real SyncManager, real processes) ' + bad[1],
+            res.alarms.append(dict(signature=bad[0], what='(real SyncManager, real processes) %s; history %s'
+                                                          % (bad[1], json.dumps(c)[:500]),
                                    replay=dict(mode='life', case=c, impl=o)))
     res.add_cov(evaluations=len(cases), distinct=len({json.dumps(c) for c in cases}), traces=len(cases),
                 rule='lifetime on the typeids SyncManager registers itself (Queue and JoinableQueue = AutoProxy '
@@ -1013,7 +1051,7 @@ def replay(path):
                   json.dumps(o['obs'])[:300])
         bad = life_monitor(c, out)
         print('monitors satisfied (refcount = live proxies after every step, results as on the local twin)'
-              if not bad else '%s: %s' % bad)
+              if not bad else '%s: %s' % bad[:2])
         return 1 if bad else 0
     if out and out[-1].get('hang'):
         print('implementation now: the operation does not return / crashes:', out[-1])
